@@ -176,6 +176,18 @@ META = {
         compare=lambda cid, impl, model, tags: cid.startswith("c03-k") and model.split(":img=")[0] == impl,
         timeout=2400,
     ),
+    "C16": dict(
+        rule="programs of 2-6 steps (generated UPDATE/DELETE/INSERT executed directly or as prepared statements, SELECTs "
+             "with bound arguments, BEGIN/COMMIT/ROLLBACK, two statements in one Exec, CREATE/DROP TABLE) run once through "
+             "the proxy (AT outside a global transaction, AT inside one, XA outside) and once through the bare driver on "
+             "an identical table; compared: every result (affected rows, generated id, rows, error number), the final "
+             "table, the statements that reached the database (identical outside a global transaction; the bare run's "
+             "statements as an ordered subsequence inside one) and coordinator traffic (none outside). Programs of plain "
+             "DML and transaction control are also predicted by the model (Plain.prun)",
+        trusted=["memdb executes the same statement identically on two identical tables"],
+        assumptions=["SELECT ... FOR UPDATE, INSERT ... ON DUPLICATE KEY UPDATE and XA inside a global transaction belong to C03 / C17"],
+        timeout=2400,
+    ),
     "C02": dict(
         rule="one AT local transaction (autocommit statement, or explicit BEGIN/1-2 statements/COMMIT; UPDATE, DELETE or "
              "INSERT that certainly changes a row) inside a global transaction, run once fault-free and then once per "
